@@ -51,14 +51,6 @@ def c19_substitution_branch_symbolic_bounds(c, k):
     return c.get('rule') in ('Substitution(u,x^2)', 'Substitution(u,x^2+1)', 'SubstitutionInverse(u,sqrt(u))') and str(c.get('before', '')).startswith('INT x:[-a,a].')
 
 
-@matcher('c19_normalize_fraction_times_sum')
-def c19_normalize_fraction_times_sum(c, k):
-    """poly.normalize keeps a sum divided by a constant as c * (s + t) (division treats the sum as an atom) while a product
-    with a constant is distributed, so a second normalisation changes the form.  Only that shape, with both forms proved
-    equal in value, is covered."""
-    return c.get('kind') == 'normalize-not-idempotent' and c.get('shape') == 'fraction-times-sum'
-
-
 @matcher('c19_normalize_splits_root_of_product')
 def c19_normalize_splits_root_of_product(c, k):
     """poly.normalize distributes a square root over the factors of a product or quotient without knowing their signs
@@ -71,16 +63,11 @@ def c19_normalize_splits_root_of_product(c, k):
     return roots(str(c.get('after', ''))) > roots(str(c.get('before', '')))
 
 
-@matcher('c19_normalize_terms_reordered')
-def c19_normalize_terms_reordered(c, k):
-    """poly.normalize orders the terms of a sum before their arguments are normalised, so a second normalisation (which sees
-    the normalised arguments) can put the same signed terms in another order.  Only a pure reordering of the additive terms
-    is covered."""
-    return c.get('kind') == 'normalize-not-idempotent' and c.get('shape') == 'terms-reordered'
-
-
-@matcher('c19_normalize_powers_merged_late')
-def c19_normalize_powers_merged_late(c, k):
-    """poly.normalize leaves a product of two powers of one base (x * x, x * x ^ 2) in a denominator and merges it into one
-    power (x ^ 2, x ^ 3) only when applied again; both forms have the same value.  Only that shape is covered."""
-    return c.get('kind') == 'normalize-not-idempotent' and c.get('shape') == 'powers-merged'
+@matcher('c19_normalize_needs_second_round')
+def c19_normalize_needs_second_round(c, k):
+    """poly.normalize sorts, distributes and merges on the basis of the *un-normalised* subterms, so its result is sometimes not
+    yet its own normal form: a second application still distributes a constant over a sum (1/9 * (x + 1) -> 1/9 * x + 1/9),
+    merges powers (x * x ^ 2 -> x ^ 3), rewrites a * (1 / b) to a / b or reorders terms and factors -- and then stops.
+    Covered: the two forms have the same value and the second result is a fixpoint.  A normalisation that changes the value,
+    or that keeps changing, is not covered."""
+    return c.get('kind') == 'normalize-not-idempotent' and c.get('same_value') is True and c.get('second_round_is_fixpoint') is True
